@@ -112,6 +112,7 @@ fn main() {
             let n: usize = arg(&args, "--n").and_then(|s| s.parse().ok()).unwrap_or(1000);
             let out = arg(&args, "--out").expect("--out");
             let primreq = arg(&args, "--primreq").unwrap_or_else(|| format!("{out}.primreq.json"));
+            let threads_arg: usize = arg(&args, "--threads").and_then(|s| s.parse().ok()).unwrap_or(8);
             let mut rec = record::Recorder::new(&out);
             let mut rng = rand::rngs::StdRng::seed_from_u64(seed);
             let run = move || {
@@ -120,6 +121,7 @@ fn main() {
                     "programs" => record::gen_programs(&mut rec, &mut rng, n),
                     "histories" => record::gen_histories(&mut rec, &mut rng, n),
                     "fuzz" => record::gen_fuzz(&mut rec, &mut rng, n),
+                    "threads" => record::gen_threads(&mut rec, &mut rng, n, threads_arg),
                     other => {
                         eprintln!("unknown generator {other}");
                         std::process::exit(2);
